@@ -68,6 +68,13 @@ def lacking_cases(rng, name, nd, safe, fillings):
                     for k in STACKS:
                         n = depth[k] if k in depth else rng.randrange(1, 4)          # bystanders are never empty
                         st[k] = elems(rng, k, n, safe, alloc)
+                    # the items that ARE present are rich enough for the instruction to do something with them if it went on
+                    # regardless (a guard that reads the missing operand through a clamped / saturating accessor would)
+                    for k in short:
+                        if k in ("code", "exec") and st[k] and rng.random() < 0.7:
+                            st[k][0] = L(Z(1), L(Z(2), N("a")), Z(3))
+                    if st.get("int") and rng.random() < 0.5 and not alloc:
+                        st["int"][0] = rng.choice([0, 1, 2, 3])
                     st["bind"] = [(n, stepgen.rand_item(rng, safe, 2)) for n in rng.sample(stepgen.NAMES_POOL, rng.randrange(1, 3))]
                     st["quote"] = rng.random() < 0.3
                     st["send"] = rng.random() < 0.3
@@ -170,7 +177,7 @@ def streams(seed, tier):
         vcheck.die("registered and modelled instructions without a line in the specification tables: %s" % missing_spec)
     safe = [x for x in names if x not in stepgen.UNSAFE and x not in stepgen.RANDOM and x not in stepgen.ALLOCATING]
     todo = [n for n in names if n in modelled]
-    fillings = 4 if tier == "quick" else 12
+    fillings = 6 if tier == "quick" else 12
     lack = []
     nolack = []
     for nm in todo:
